@@ -1,6 +1,7 @@
 (* C11 monitor runner.
    holds <dest hex> <dest_same 0/1> <trace>   -> true|false
    safe <dest hex> <trace>                    -> true|false
+   quiet <trace>                              -> true|false
    trace syntax as in c11_main.ml *)
 let parse_op t =
   let n = String.length t in
@@ -22,6 +23,7 @@ let parse_trace s = if s = "~" then [] else List.map parse_op (String.split_on_c
 let handle fields =
   match fields with
   | ["holds"; dest; same; tr] -> string_of_bool (holds_C11 (bytes_of_hex dest) (parse_trace tr) (same = "1"))
+  | ["quiet"; tr] -> string_of_bool (holds_C11_quiet (parse_trace tr))
   | ["safe"; dest; tr] -> string_of_bool (safe (bytes_of_hex dest) (parse_trace tr))
   | _ -> failwith "bad request"
 let () = main_loop handle
